@@ -14,6 +14,7 @@ import (
 	"sort"
 	"strings"
 	"testing"
+	"time"
 
 	"github.com/ChainSafe/gossamer/dot/types"
 	"github.com/ChainSafe/gossamer/internal/verifmc"
@@ -189,7 +190,7 @@ func c34Canon(s *c34State) []byte {
 func TestVerif_C34_seq(t *testing.T) {
 	r := verifmc.NewReport("C34", "seq", "model_checking")
 	defer r.Write()
-	r.Rule = "BFS over sequential Push/Pop/Peek/Remove/Exists/Pending/Len histories on the real PriorityQueue (3 transactions x 2 priorities), from the empty queue and from two populated queues, against a list ordered by (priority desc, insertion asc); after every operation the queue is also drained on a replayed copy and the yield order compared (each transaction at most once)"
+	r.Rule = "BFS over sequential Push/Pop/Peek/Remove/Exists/Pending/Len histories on the real PriorityQueue (3 transactions x 2 priorities), from the empty queue and from two populated queues, against a list ordered by (priority desc, insertion asc); after every operation the queue is also drained on a replayed copy and the yield order compared (each transaction at most once); plus scripted PopWithTimer histories with a harness-owned timer channel (timeout then push: the transaction must stay queued; arrival while waiting: yielded exactly once)"
 	var ops []verifmc.Op
 	for _, n := range []string{"a", "b", "c"} {
 		for _, p := range []uint64{1, 2} {
@@ -247,6 +248,70 @@ func TestVerif_C34_seq(t *testing.T) {
 			Depth: verifmc.Pick(5, 7),
 		}
 		h.Explore(r)
+	}
+	c34PopWithTimer(r)
+}
+
+// c34PopWithTimer: the blocking pop used by block authoring.  Scripted histories around its two exits
+// (timer, transaction); the timer channel is owned by the harness.  The oracle is one-sided and
+// independent of timing: a transaction pushed AFTER PopWithTimer has returned nil must stay in the
+// queue until somebody pops it (waiting longer can only make a violation more likely to be seen,
+// never produce one on code that holds the property).
+func c34PopWithTimer(r *verifmc.Report) {
+	for rep := 0; rep < 3; rep++ {
+		for _, pre := range []int{0, 1} { // timer already fired before the call / fires during the call
+			q := NewPriorityQueue()
+			q.pollInterval = time.Millisecond
+			timer := make(chan time.Time, 1)
+			if pre == 0 {
+				timer <- time.Time{}
+			} else {
+				go func() { time.Sleep(3 * time.Millisecond); timer <- time.Time{} }()
+			}
+			r.Add("evaluations", 1)
+			if vt := q.PopWithTimer(timer); vt != nil {
+				r.Violate("PopWithTimer:yields-from-an-empty-queue", "PopWithTimer on an empty queue returned "+c34TxName(vt), nil)
+				continue
+			}
+			m := &c34Model{}
+			push := c34Op{kind: "push", name: "a", prio: 1}
+			if got, want := c34ApplyReal(q, push), c34ApplyModel(m, push); got != want {
+				r.Violate("PopWithTimer:push-after-timeout:wrong-result", "push(a) after a timed-out PopWithTimer returned "+got+", model "+want, nil)
+				continue
+			}
+			time.Sleep(25 * time.Millisecond) // 25 poll intervals
+			bad := ""
+			for _, o := range []c34Op{{kind: "len"}, {kind: "exists", name: "a"}, {kind: "peek"}, {kind: "pop"}} {
+				if got, want := c34ApplyReal(q, o), c34ApplyModel(m, o); got != want {
+					bad += fmt.Sprintf(" %s=%s (model %s)", o.Name(), got, want)
+				}
+			}
+			if bad != "" {
+				r.Outcome("PopWithTimer:timeout-then-push:transaction-lost")
+				r.Violate("PopWithTimer:transaction-pushed-after-the-timeout-leaves-the-queue-unpopped",
+					"PopWithTimer timed out (returned nil); then push(a) succeeded; 25 poll intervals later:"+bad, map[string]any{"timer_fired_before_call": pre == 0})
+			} else {
+				r.Outcome("PopWithTimer:timeout-then-push:transaction-kept")
+			}
+		}
+		// the other exit: a transaction arrives while PopWithTimer waits -> it is yielded, exactly once
+		q := NewPriorityQueue()
+		q.pollInterval = time.Millisecond
+		timer := make(chan time.Time, 1)
+		go func() {
+			time.Sleep(3 * time.Millisecond)
+			_, _ = q.Push(NewValidTransaction(c34Ext("b"), &Validity{Priority: 1}))
+		}()
+		r.Add("evaluations", 1)
+		vt := q.PopWithTimer(timer)
+		if vt == nil || c34TxName(vt) != "b" {
+			r.Violate("PopWithTimer:does-not-yield-the-arriving-transaction", fmt.Sprintf("PopWithTimer returned %v while b was pushed and the timer never fired", vt), nil)
+		} else if q.Len() != 0 || q.Pop() != nil {
+			r.Violate("PopWithTimer:yielded-transaction-still-queued", "b was yielded by PopWithTimer and is still in the queue", nil)
+		} else {
+			r.Outcome("PopWithTimer:yields-arriving-transaction")
+		}
+		timer <- time.Time{}
 	}
 }
 
